@@ -144,10 +144,20 @@ def builder_calls(rng):
         'ablation': (lambda a: Marker().ablation([[a[0], a[1], 0.0], [a[2], a[1], 0.0]], shift=a[3]), [0.0, 0.0, 1.0, 0.01]),
         'box': (lambda a: Marker().box([a[0], a[1], 0.0], width=a[2], height=a[3]), [0.0, 0.0, 1.0, 0.06]),
         'marker_attr': (lambda a: Marker(speed=a[0], speed_closed=a[1], speed_pos=a[2], depth=a[3]).cross([0.0, 0.0]), [1.0, 5.0, 0.5, 0.0]),
+        # a speed attribute assigned after the object was created (between start() and end(), or before a marker figure)
+        'end_after_assign': (lambda a: _assign_then(started(), {'speed_closed': a[0], 'speed_pos': a[1]}, lambda w: (w.linear([1.0, 0.0, 0.0]), w.end())), [5.0, 0.5]),
+        'marker_after_assign': (lambda a: _assign_then(Marker(), {'speed_closed': a[0], 'speed': a[1]}, lambda m: m.box([0.0, 0.0, 0.0], width=1.0, height=0.06)), [5.0, 1.0]),
         'raster': (lambda a: _raster(px_to_mm=a[0], speed=a[1], speed_closed=a[2], z_init=a[3]), [0.01, 1.0, 5.0, 0.0]),
         'raster_pos': (lambda a: _raster(px_to_mm=a[0], speed_pos=a[1], shutter=1, speed=a[2]), [0.04, 0.5, 2.0]),
     }
     return calls
+
+
+def _assign_then(obj, attrs, then):
+    for k, v in attrs.items():
+        setattr(obj, k, v)
+    then(obj)
+    return obj
 
 
 def _raster(**kw):
